@@ -59,9 +59,11 @@ type Op struct {
 	N       int    `json:"n,omitempty"`
 	Hold    bool   `json:"hold,omitempty"`
 	Phase   int    `json:"phase,omitempty"`
-	Cancel  int    `json:"cancel,omitempty"`  // 0 none; k>0: a cancel task exists, started in phase k-1.. (scenario specific)
-	Stall   bool   `json:"stall,omitempty"`   // sub: the consumer never reads
-	Consume int    `json:"consume,omitempty"` // sub: stop reading after k values (0 = all)
+	Cancel  int    `json:"cancel,omitempty"`   // 0 none; k>0: a cancel task exists, started in phase k-1.. (scenario specific)
+	SleepNs int64  `json:"sleep_ns,omitempty"` // handler takes this much fake time
+	GapNs   int64  `json:"gap_ns,omitempty"`   // sub: producer pause between values
+	Stall   bool   `json:"stall,omitempty"`    // sub: the consumer never reads
+	Consume int    `json:"consume,omitempty"`  // sub: stop reading after k values (0 = all)
 }
 
 type Fault struct {
@@ -115,6 +117,7 @@ func (w *World) Register(op Op) *Tok {
 	t := w.E.Tok(op.Tok)
 	t.mu.Lock()
 	t.Kind, t.Size, t.Err, t.Panic, t.Delta, t.N, t.Hold = op.Kind, op.Size, op.Err, op.Panic, op.Delta, op.N, op.Hold
+	t.SleepNs, t.GapNs = op.SleepNs, op.GapNs
 	if op.Client < len(w.Clients) {
 		t.Client = w.Clients[op.Client].Name
 	}
@@ -137,6 +140,7 @@ func (w *World) Start(op Op, ctx context.Context) {
 		t.mu.Lock()
 		t.Invoked = true
 		t.InvokeAt = e.S.Step()
+		t.InvokeT = e.S.Now()
 		t.mu.Unlock()
 		simrt.Rec("invoke", strconv.Itoa(op.Tok), op.Kind, 0)
 		var val string
@@ -174,6 +178,7 @@ func (w *World) Start(op Op, ctx context.Context) {
 		t.mu.Lock()
 		t.Returned = true
 		t.ReturnAt = e.S.Step()
+		t.ReturnT = e.S.Now()
 		t.Val, t.IVal, t.RetErr = val, ival, err
 		t.mu.Unlock()
 		es := ""
